@@ -215,10 +215,10 @@ End Parse.
 
 (* ---- a whole play file: ParseByLine = bufio.Scanner with ScanLines over the bytes of the file.
         A line ends at \n; a text that does not end in \n has one more, unterminated, line (kept when
-        it is not empty); one trailing \r is dropped from every line (dropCR); a raw line of 65536
-        bytes or more does not fit the scanner's buffer (bufio.MaxScanTokenSize): scanning stops
-        there with ErrTooLong, the lines before it have been delivered, LoadFile returns the error
-        and `relay file` refuses the play file. ---- *)
+        it is not empty); one trailing \r is dropped from every line (dropCR).  Since the repair F14d
+        the scanner's buffer grows as far as memory allows (scanner.Buffer(..., math.MaxInt)): a line
+        of any length is handed to ParseLine.  (Memory exhaustion and read errors of the underlying
+        file are outside the model.) ---- *)
 Definition is_nl (c : ascii) : bool := (code c =? 10)%N.
 Definition is_cr (c : ascii) : bool := (code c =? 13)%N.
 
@@ -243,12 +243,18 @@ Fixpoint drop_cr (l : string) : string :=
       end
   end.
 
+(* the lines the scanner hands out *)
+Definition file_lines (text : string) : list string := map drop_cr (raw_lines text).
+
 Fixpoint lenN (s : string) : N :=
   match s with EmptyString => 0%N | String _ r => N.succ (lenN r) end.
 
+(* BEFORE F14d (kept as evidence only, Props: C20_old_scanner_limit_refuted): the scanner had its
+   default buffer, a raw line of bufio.MaxScanTokenSize = 65536 bytes or more stopped it with
+   ErrTooLong - the lines before it were delivered, LoadFile returned the error and `relay file`
+   refused the play file *)
 Definition max_token : N := 65536.
 
-(* the lines the scanner hands out, and whether it stopped on a line that is too long *)
 Fixpoint scan_ok (ls : list string) : list string * bool :=
   match ls with
   | [] => ([], false)
@@ -257,16 +263,18 @@ Fixpoint scan_ok (ls : list string) : list string * bool :=
       else let (a, b) := scan_ok r in (drop_cr l :: a, b)
   end.
 
-Definition file_lines (text : string) : list string * bool := scan_ok (raw_lines text).
-
 Section Load.
   Variable parse_dur : string -> option Z.
   Variable regex_ok : string -> bool.
   Variable atoi : string -> option Z.
 
-  (* LoadFile: the items, in order, and "ParseByLine returned an error" *)
-  Definition load_text (text : string) : list item * bool :=
-    let (ls, too_long) := file_lines text in (parse_file parse_dur regex_ok atoi ls, too_long).
+  (* LoadFile: the items, in order *)
+  Definition load_text (text : string) : list item :=
+    parse_file parse_dur regex_ok atoi (file_lines text).
+
+  (* LoadFile as it was with the 64 KiB limit: the items, and "ParseByLine returned an error" *)
+  Definition load_text_limited (text : string) : list item * bool :=
+    let (ls, too_long) := scan_ok (raw_lines text) in (parse_file parse_dur regex_ok atoi ls, too_long).
 End Load.
 
 (* ================================================================================================
